@@ -660,6 +660,40 @@ fn observe(rt: &CoreRuntime, image_base: &[u8]) -> Value {
     Value::Object(m)
 }
 
+/// Call-count watchdog for the host loop `AsyncRuntimeRunner::run_instructions` runs around its driver
+/// (`loop { run_for(slice) }` until the task's completion event; an idle call makes the slice grow by one).
+/// That loop lives in the crate and has no exit other than the event, so a driver that does not serve a due
+/// wake-up under the runner's (clock, slice) would spin there forever and the harness could only report a
+/// wall-clock timeout.  The same loop is therefore first run here, bounded, on a scratch driver with the clock
+/// the runner's driver starts from and a task of the runner's shape (sleep one cycle, finish, emit the completion
+/// event).  The unchanged crate needs at most 3 calls (slice 1: poll, idle call, slice 2).  Returns a description
+/// of the stall, or None.
+const HOST_LOOP_CALLS: u64 = 1000;
+
+fn host_loop_probe(clock: u64, slice: u64) -> Option<Value> {
+    let mut d = AsyncDriver::with_clock(clock);
+    d.spawn(async {
+        sleep_cycles(1).await;
+        emit_event(DriverEvent::User(1));
+    });
+    let mut s = slice.max(1);
+    let mut idle = 0u64;
+    for _ in 0..HOST_LOOP_CALLS {
+        let r = d.run_for(s);
+        match r.event {
+            DriverEvent::MaxCycles => {
+                if r.cycles_executed == 0 {
+                    idle += 1;
+                    s = s.saturating_add(1);
+                }
+            }
+            DriverEvent::User(_) => return None,
+        }
+    }
+    Some(json!({"clock": clock, "slice": slice, "calls": HOST_LOOP_CALLS, "idle_calls": idle,
+                "clock_after": d.clock(), "slice_after": s}))
+}
+
 fn run_cpu(case: &Value) -> Value {
     let warm = get_u64(case, "warm", 0) as usize;
     let slice = get_u64(case, "slice", 10_000);
@@ -678,11 +712,13 @@ fn run_cpu(case: &Value) -> Value {
     let mut sync_rt = build_runtime(case);
     let base: Vec<u8> = sync_rt.memory.external_slice().to_vec();
     let mut sync_out = Vec::new();
+    let mut call_clocks: Vec<u64> = Vec::new();
     let warm_err_s = sync_rt.step(warm).err().map(|e| e.to_string());
     let sync_start = observe(&sync_rt, &base);
     for n in calls.iter() {
         let i0 = sync_rt.instruction_count();
         let c0 = sync_rt.cycle_count();
+        call_clocks.push(c0);
         let e = sync_rt.step(*n).err().map(|e| e.to_string());
         sync_out.push(json!({
             "err": e,
@@ -696,6 +732,21 @@ fn run_cpu(case: &Value) -> Value {
     let mut async_rt = build_runtime(case);
     let warm_err_a = async_rt.step(warm).err().map(|e| e.to_string());
     let async_start = observe(&async_rt, &base);
+    // bounded rehearsal of the runner's host loop for every (clock at call k, slice) of this case; a stall is
+    // reported instead of entering the crate's unbounded loop
+    for (k, c0) in call_clocks.iter().enumerate() {
+        if let Some(mut st) = host_loop_probe(*c0, slice) {
+            st["call"] = json!(k);
+            return json!({
+                "ok": true,
+                "warm_err": [warm_err_s, warm_err_a],
+                "start": [sync_start, async_start],
+                "sync": sync_out,
+                "async": [],
+                "stall": st,
+            });
+        }
+    }
     let rc = Rc::new(RefCell::new(async_rt));
     let mk = |rc: &Rc<RefCell<CoreRuntime>>| {
         let r = AsyncRuntimeRunner::new(rc.clone());
